@@ -18,6 +18,7 @@ import FFVerif.Model.Effects
 import FFVerif.Model.Validate
 import FFVerif.Model.ConcatLogic
 import FFVerif.Model.ExtendLogic
+import FFVerif.Model.Registers
 
 namespace FFVerif.Model
 open FFVerif FFVerif.Proto
@@ -69,7 +70,7 @@ def handleMore (toks : List String) : String :=
     "ok " ++ showFloats #[v]
   | toks =>
     -- components that live in their own model files
-    let handlers : List (List String → Option String) := [handleDiag, Tensor.handleTensor, handleSecondOrder, handleGradient, Pulse.handlePulse, handleBasis, handleCumulant, Cache.handleCacheTrace, Effects.handleEffects, Validate.handleValidate, ConcatLogic.handleConcatLogic, ExtendLogic.handleExtendLogic]
+    let handlers : List (List String → Option String) := [handleDiag, Tensor.handleTensor, handleSecondOrder, handleGradient, Pulse.handlePulse, handleBasis, handleCumulant, Cache.handleCacheTrace, Effects.handleEffects, Validate.handleValidate, ConcatLogic.handleConcatLogic, ExtendLogic.handleExtendLogic, Registers.handleRegisters]
     match handlers.findSome? (fun h => h toks) with
     | some r => r
     | none => "err bad-op"
